@@ -61,6 +61,8 @@ TUS = {
     "t_mask": {"sources": ["t_mask.cpp"], "parts": INT_PARTS + FLT_PARTS},
     "t_mem": {"sources": ["t_mem.cpp"], "parts": INT_PARTS + FLT_PARTS},
     "t_memfp": {"sources": ["t_mem.cpp"], "parts": INT_PARTS + FLT_PARTS, "flags": ["-DVX_FOOTPRINT=1"]},
+    "t_memasan": {"sources": ["t_mem.cpp"], "parts": INT_PARTS + FLT_PARTS,
+                  "flags": ["-DVX_ASAN_FOOTPRINT=1", "-fsanitize=address", "-fsanitize-recover=address", "-fno-omit-frame-pointer"]},
     # scalar Denominator<T> uses nothing of the vector headers: its configuration classes are those of the scalar headers alone
     "t_denom": {"sources": ["t_denom.cpp"], "parts": INT_PARTS, "family": "scalar"},
     "t_denomv": {"sources": ["t_denom.cpp"], "parts": INT_PARTS, "flags": ["-DVX_DENOM_VECTOR=1"]},
@@ -74,7 +76,7 @@ TUS = {
     "t_prefetch32": {"sources": ["t_prefetch.cpp"], "parts": [None], "flags": ["-DAVEL_L1_CACHE_LINE_SIZE=32", "-DAVEL_L2_CACHE_LINE_SIZE=32", "-DAVEL_L3_CACHE_LINE_SIZE=32"]},
     "t_prefetch128": {"sources": ["t_prefetch.cpp"], "parts": [None], "flags": ["-DAVEL_L1_CACHE_LINE_SIZE=128", "-DAVEL_L2_CACHE_LINE_SIZE=128", "-DAVEL_L3_CACHE_LINE_SIZE=128"]},
     "t_types": {"sources": ["t_types.cpp"], "parts": [None], "flags": ["-fsyntax-only"], "norun": True},
-    "t_api": {"sources": ["t_api.cpp"], "parts": INT_PARTS + FLT_PARTS, "flags": ["-O0", "-Wl,--warn-unresolved-symbols"], "link_check": True},
+    "t_api": {"sources": ["t_api.cpp", "t_api2.cpp"], "parts": INT_PARTS + FLT_PARTS, "flags": ["-O0", "-Wl,--warn-unresolved-symbols"], "link_check": True},
     "t_select": {"sources": ["t_select.cpp"], "parts": INT_PARTS + FLT_PARTS, "cfg_flags": exh16_flags, "shards": {"thorough": {"16": 6, "8": 2}}},
 }
 
@@ -265,7 +267,7 @@ PROPS = {
         "assumptions": ["a failing case is replayed by repeating the deterministic enumeration for its subject"],
     },
     "C09": {
-        "tus": ["t_memfp"],
+        "tus": ["t_memfp", "t_memasan"],
         "configs": int_cfgs,
         "rule": "for every vector type and every n in 0..W+1: a buffer of exactly min(n,W) elements placed (i) ending at a page boundary followed by an inaccessible page and (ii) starting at a "
                 "page boundary preceded by one, the neighbour being PROT_NONE or PROT_READ (write-back of old bytes faults), for every load/store form; n == 0 with a null pointer and pointers "
